@@ -146,7 +146,7 @@ def getterFn (l : List (Ref × GetRes)) (r : Ref) : GetRes :=
   | none => .direct
 
 def mkCfg (fixed : Bool) (l : List (Ref × GetRes)) : Cfg :=
-  { get := getterFn l, iface := fun tp => tp ≥ 2, fixed := fixed }
+  { get := getterFn l, fixed := fixed }
 
 /-! ## references mentioned (for the cache dump) -/
 
